@@ -90,9 +90,16 @@ func (repo *BlockRepository) Load(ctx context.Context) error {
 			break
 		}
 
-		if previousFileSize != -1 && previousFileSize != blocksPerKey {
-			return errors.New(fmt.Sprintf("Invalid block file (count %d) : %s", previousFileSize,
-				repo.buildPath(repo.height-blocksPerKey)))
+		if previousFileSize != -1 && (previousFileSize != blocksPerKey ||
+			!headers[0].PrevBlock.Equal(repo.lastHeaders[len(repo.lastHeaders)-1].BlockHash())) {
+			// This file doesn't continue the chain below it. A revert that failed after it removed
+			// the files in between can leave the old top file behind. It is not part of the chain.
+			path := repo.buildPath(filesLoaded * blocksPerKey)
+			logger.Warn(ctx, "Removing block file that does not link to the previous file : %s", path)
+			if err := repo.store.Remove(ctx, path); err != nil && err != storage.ErrNotFound {
+				return errors.Wrap(err, fmt.Sprintf("Failed to remove block file : %s", path))
+			}
+			break
 		}
 
 		// Add this set of headers to the heights map
